@@ -83,7 +83,7 @@ var (
 	opNames    = []string{"f0", "f1", "g2", "h3", "calc.it", "is_child", "fi", "AND", "Or", "Not", "IN", "größe", "検査"}
 	intPool    = []int64{0, 1, -1, 2, 3, 5, 7, 10, 18, 100, -100, 9999, 10000, math.MaxInt64, math.MinInt64, 4000, 127, 128, 255, 256, 32767, 32768, -32768, math.MaxInt32, math.MinInt32}
 	strPlain   = []string{"", "a", "b", "fi", "if", "DNE", "true", "nil", "and", "en-US", "zh", "Male", "1.2.3", "2.3", "10.0.1", "2021-01-01", "2021-01-01 11:58:56", "2020-02-29", "hello", "你好"}
-	strWeird   = []string{"a b", "(x)", ";;c", "tab\there", "line\nbreak", "back\\slash", "x;y", " lead", "👋~ 👶", "[1,2]", "1.2.x", "1.10000", "2021-13-01", "2021-02-30", "99999.1", "1.2.3.4", "2.3.4.beta", "1.2.3.20240115", "2.3.4.", "7.8.x.1"}
+	strWeird   = []string{"a b", "(x)", ";;c", "tab\there", "line\nbreak", "back\\slash", "x;y", " lead", "👋~ 👶", "[1,2]", "1.2.x", "1.10000", "2021-13-01", "2021-02-30", "99999.1", "1.2.3.4", "2.3.4.beta", "1.2.3.20240115", "2.3.4.", "7.8.x.1", "cr\r\nlf", "\r"}
 	layoutPool = []string{"2006-01-02", "2006-01-02 15:04:05", "2006/01/02", "20060102", "02.01.2006 15:04"}
 )
 
